@@ -54,4 +54,48 @@ PROPS = {
         'assumptions': ['derive(PartialEq, Ord, Hash) act on the storage field only (PhantomData contributes nothing) - checked by '
                         'the recorded hasher input and cmp results on the generated cases'],
     },
+    'C07': {
+        'level_text': 'Coq theorems (Properties/C07.v) about an executable Gallina model of Scanner::scan that follows msp.rs line '
+                      'by line (MinPos order with ties to the rightmost, find_min, the rescan / strict-improvement loop, interval '
+                      'synthesis with the as u32 / as u16 casts): for every sequence, all 1 <= p <= k <= |seq| < 2^32 with '
+                      '2k-p < 2^16 and EVERY score function (a Section variable: constant and heavily tied scores included) the scan '
+                      'succeeds and its intervals satisfy clauses (a)-(f) of the property (starts from 0 strictly increasing, overlap '
+                      'exactly k-1, last ends at |seq|, hence every k-mer start in exactly one interval; k <= len <= 2k-p; minimizer = '
+                      'p-mer at the reported position, inside every k-mer; minimal score in the interval; an interval ends only when '
+                      'the minimizer leaves the next k-mer or a strictly better p-mer enters). Proof by loop invariant, no sweep. '
+                      'The guard 2k-p < 2^16 is necessary: the wrap of the u16 length is exhibited on the same model '
+                      '(scan_len_wrap_refuted) and on the real code (known finding F7). A boolean checker of (a)-(f), proved sound, '
+                      'is run on the intervals the implementation reports.',
+        'level_note': 'Trusted: Coq kernel+VM; the hand transcription of msp.rs into coq/Algo/Scan.v (p-mers as base lists; the packed '
+                      'p-mer type enters through the C10/C11 refinements get_kmer = substring, extend_right = shift); the inner '
+                      'index operations are total in the model and the absence of index panics under the guard is checked by the '
+                      'differential run only; extraction; harness. No axioms. Known finding (open, not repaired): 2k-p > 65535.',
+        'technique': 'loop-invariant proof over an executable model (Coq), verified boolean checker on implementation outputs, '
+                     'differential correspondence',
+        'rule': 'p-mer types Kmer2,3,4,5,6,8,10,12,16; k = p..p+9 and three larger; sequences of length k..6k over alphabets of 1-4 '
+                'letters with homopolymer runs, tandem repeats and hairpins, through DnaSlice / DnaString / DnaBytes; scores: '
+                'lexicographic rank, AT count, constant, 2-4 valued random table, random permutation, permutation with min(x, rc x); '
+                'simple_scan with explicit permutation tables (p <= 5); out-of-guard cases (|seq| < k, k < p) compared on panic; '
+                'the F7 witness; non-trivial = the implementation reports at least two intervals',
+        'assumptions': ['Scanner::scan is as transcribed in coq/Algo/Scan.v (checked by this run on the generated cases only)',
+                        'the caller\'s score closure is a pure function of the p-mer'],
+    },
+    'C08': {
+        'level_text': 'Coq theorems (Properties/C08.v) about an executable model of msp_sequence on top of the scanner model: every '
+                      'emitted piece is the exact substring of the read at the tiling position and its extensions are the flanking '
+                      'bases (none at a read end) (piece_exact); with an injective permutation table of 4^p entries the bucket of the '
+                      'piece covering ANY occurrence of a k-mer equals shard_of(k-mer), a function of the k-mer alone (bucket_pure), '
+                      'which in rc mode is invariant under reverse complement (bucket_rc). A boolean checker of piece exactness and '
+                      'bucket purity over all occurrences in a read set is run on the implementation output.',
+        'level_note': 'Trusted as for C07; the piece container V is represented by the string it holds (V::from_slice and get are the '
+                      'business of C14/C17) and by its max_len. No axioms.',
+        'technique': 'proof on top of the C07 scanner theorems (Coq), boolean checker on implementation outputs, differential '
+                     'correspondence',
+        'rule': 'read sets of 1-4 reads built from shared chunks in both orientations (recurring k-mers on both strands), p in '
+                '{2,3,4,5,6,8}, k = p+1..p+9 and two larger, default and random explicit permutations (p <= 5), rc mode on/off, piece '
+                'containers DnaBytes, DnaString, Lmer1/2/3 (including max_len < 2k-p: panic expected); non-trivial = some k-mer '
+                '(canonical in rc mode) is observed at least twice in the read set',
+        'assumptions': ['msp_sequence is as transcribed in coq/Algo/Msp.v (checked by this run on the generated cases only)',
+                        'the permutation table is injective and has 4^p entries (hypothesis of bucket_pure)'],
+    },
 }
